@@ -31,21 +31,8 @@ Definition client_call_timed (std smol : bool) (q : tquery) (cfg : call_cfg) (ji
     | o => (([], None), [], retype o Panic, tq_start q)
     end.
 
-(* ClientImpl::query_rrset::<D>: refused without a configured buffer size or for a class that is
-   not a data class; otherwise the raw query for D's type into the client's buffer of the
-   configured size, and record-set extraction from exactly the bytes it returned *)
+(* ClientImpl::query_rrset::<D> (Timed.v: rrset_of_raw) over this raw query *)
 Definition client_rrset_timed (std smol : bool) (q : tquery) (cfg : call_cfg) (jit proc : N -> N) (buffer_size : N)
            (arrs : list arrival) (srv : tcp_peer)
   : (list (N * list byte) * option (list byte)) * list event * res RecordSet.rrset * N :=
-  if (if std then std_rrset_refuse buffer_size 0 0 else async_rrset_refuse buffer_size 0 0)
-  then (([], None), [], Err BadParam, tq_start q)
-  else if (if std then std_rrset_bad_class (class_is_data (tq_class q)) else async_rrset_bad_class (class_is_data (tq_class q)))
-  then (([], None), [], Err (UnsupportedClass (tq_class q)), tq_start q)
-  else
-    let room := if std then std_take_buf_len 0 buffer_size else async_take_buf_len 0 buffer_size in
-    match client_call_timed std smol q cfg jit proc room arrs srv with
-    | (wire, ev, Ok d, t) =>
-      let n := (if std then std_rrset_parse_len else async_rrset_parse_len) (lenN d) buffer_size in
-      (wire, ev, RecordSet.from_msg (firstn (N.to_nat n) d) (tq_type q), t)
-    | (wire, ev, r, t) => (wire, ev, retype r Panic, t)
-    end.
+  rrset_of_raw std q buffer_size ([], None) (fun room => client_call_timed std smol q cfg jit proc room arrs srv).
